@@ -105,7 +105,10 @@ def _worker(args):
         if homog and items and m > len(items):
             if c in ("set", "frozenset", "dict_keys", "dict_items"):
                 i0 = o["items"][0]
-                if simple(h["a"][0]) and i0["k"] == "atom" and fresh_atoms(i0, 0) is not None:
+                # the iteration order of a hashed container changes with its size: only sets whose items are
+                # all look-alikes of each other (same class) have a first item of size-independent conformity
+                alike = all(i["k"] == "atom" and i["cls"] == i0["cls"] for i in o["items"])
+                if alike and simple(h["a"][0]) and i0["k"] == "atom" and fresh_atoms(i0, 0) is not None:
                     items = items + [fresh_atoms(i0, i) for i in range(m - len(items))]
             else:
                 items = [items[i % len(items)] for i in range(m)]
